@@ -92,6 +92,9 @@ func hdrVariant(i int) map[string]string {
 		return map[string]string{"X-K": "vé", "X-Empty": ""}
 	case 4:
 		return map[string]string{"X-Multi": "a,b", "X-Q": "\"q\"\\"}
+	case 5:
+		// plain ASCII except for backslashes (nothing else in the map that a serialiser would have to escape)
+		return map[string]string{"X-Path": "C:\\temp\\new\\report.json", "X-Re": "^\\d+$", "X-End": "a\\"}
 	}
 	return nil
 }
@@ -181,7 +184,7 @@ func genItem(t *rapid.T, p qProfile, i int) QItem {
 		}
 		it.Payload = b
 	}
-	it.Hdr = rapid.IntRange(0, 4).Draw(t, "hdr")
+	it.Hdr = rapid.IntRange(0, 5).Draw(t, "hdr")
 	it.Trc = rapid.SampledFrom([]int{0, 0, 2}).Draw(t, "trc")
 	if rapid.IntRange(0, 99).Draw(t, "explicit_ts") < p.explicitTS {
 		it.RecvAgoMs = rapid.SampledFrom([]int{10, 20, 50, 100, 1000}).Draw(t, "recv_ago")
